@@ -415,8 +415,9 @@ class StateMachine:
     state_names: ClassVar[tunable[Sequence[str]]]
     state_descriptions: ClassVar[tunable[Sequence[str]]]
 
-    def __new__(cls) -> "StateMachine":
+    def __new__(cls, *args, **kwargs) -> "StateMachine":
         # choose to use __new__ instead of __init__
+        # (arguments are for the subclass's __init__, e.g. constructor injection)
         o = super().__new__(cls)
         o._build_states()
         return o
